@@ -51,6 +51,16 @@ pub fn built_items(cfg: &BuildCfg, dir: &Path, keys: &[Key], rng: &mut Rng, with
             Ok(Err(e)) => return Err(CorpusErr::Err("sign".into(), e.to_string())),
             Err(pn) => return Err(CorpusErr::Panic(format!("sign:{}", pn.site()), pn.message)),
         }
+        // a second signature on top of the first, by a key of another family, without a clear in between
+        {
+            let mut q = p.clone();
+            let k2 = &keys[[3usize, 2, 0, 4][rng.usize(4)] % keys.len()];
+            match guard(|| q.sign_with_timestamp(&k2.signer, ts)) {
+                Ok(Ok(())) => emit(&mut out, format!("built+sign({})+sign({})", k1.name, k2.name), Origin::Builder, Some(cfg), &q)?,
+                Ok(Err(e)) => return Err(CorpusErr::Err("sign".into(), e.to_string())),
+                Err(pn) => return Err(CorpusErr::Panic(format!("sign:{}", pn.site()), pn.message)),
+            }
+        }
         // a signing attempt that FAILS must leave a package that is as valid as before
         {
             let mut q = p.clone();
